@@ -49,6 +49,9 @@ enum Shape {
     Fixed,
     /// groups of keys in which every key is a proper prefix of the next: d, d/, d/x, d/xy (then the next d)
     PrefixChain,
+    /// groups of twelve keys <digits><letter a..l><tail>: the 4-byte tail is the same inside a group (its nodes are looked up a
+    /// dozen times while they are fresh) and different from group to group (an unbounded supply of such "popular" nodes)
+    GroupedTails,
 }
 
 /// how the keys reach the builder
@@ -95,6 +98,16 @@ impl<'a> GenStream<'a> {
                 self.buf[len + 2] = b'y';
                 len + (i % 4) as usize
             }
+            Shape::GroupedTails => {
+                let g = i / 12;
+                key_into(&mut self.buf[..len], g * self.c.stride, self.c.radix, self.digits);
+                self.buf[len] = b'a' + (i % 12) as u8;
+                let h = mix(g);
+                for t in 0..4 {
+                    self.buf[len + 1 + t] = b'a' + ((h >> (5 * t)) % 26) as u8;
+                }
+                len + 5
+            }
         })
     }
 }
@@ -138,7 +151,7 @@ fn measure(c: Cfg) -> Result<allocmeter::Reading, String> {
 
 fn measure_on<W: io::Write>(c: Cfg, sink: W) -> Result<allocmeter::Reading, String> {
     let digits: Vec<u8> = if c.radix <= 10 { (b'0'..=b'9').collect() } else { b"0123456789ABCDEFGHIJKLMNOPQRSTUVWXYZabcdefghijklmnopqrstuvwxyz{|".to_vec() };
-    let mut buf = vec![0u8; c.len + 3];
+    let mut buf = vec![0u8; c.len + 6];
     if c.entry != Entry::Single {
         // through the Set/Map builders' bulk entry points (default geometry only: they have no geometry hook)
         let sec = allocmeter::start();
@@ -146,18 +159,18 @@ fn measure_on<W: io::Write>(c: Cfg, sink: W) -> Result<allocmeter::Reading, Stri
             if c.set {
                 let mut b = fst::SetBuilder::new(sink).map_err(|e| e.to_string())?;
                 if c.entry == Entry::ExtendStream {
-                    b.extend_stream(GenStream { c, i: 0, buf: vec![0u8; c.len + 3], digits: &digits }).map_err(|e| e.to_string())?;
+                    b.extend_stream(GenStream { c, i: 0, buf: vec![0u8; c.len + 6], digits: &digits }).map_err(|e| e.to_string())?;
                 } else {
-                    let mut g = GenStream { c, i: 0, buf: vec![0u8; c.len + 3], digits: &digits };
+                    let mut g = GenStream { c, i: 0, buf: vec![0u8; c.len + 6], digits: &digits };
                     b.extend_iter(std::iter::from_fn(move || g.fill().map(|l| g.buf[..l].to_vec()))).map_err(|e| e.to_string())?;
                 }
                 b.finish().map_err(|e| e.to_string())
             } else {
                 let mut b = fst::MapBuilder::new(sink).map_err(|e| e.to_string())?;
                 if c.entry == Entry::ExtendStream {
-                    b.extend_stream(GenMapStream(GenStream { c, i: 0, buf: vec![0u8; c.len + 3], digits: &digits })).map_err(|e| e.to_string())?;
+                    b.extend_stream(GenMapStream(GenStream { c, i: 0, buf: vec![0u8; c.len + 6], digits: &digits })).map_err(|e| e.to_string())?;
                 } else {
-                    let mut g = GenStream { c, i: 0, buf: vec![0u8; c.len + 3], digits: &digits };
+                    let mut g = GenStream { c, i: 0, buf: vec![0u8; c.len + 6], digits: &digits };
                     b.extend_iter(std::iter::from_fn(move || {
                         let i = g.i;
                         g.fill().map(|l| (g.buf[..l].to_vec(), mix(i) >> 20))
@@ -203,6 +216,16 @@ fn measure_on<W: io::Write>(c: Cfg, sink: W) -> Result<allocmeter::Reading, Stri
                     buf[c.len + 2] = b'y';
                     c.len + (i % 4) as usize
                 }
+                Shape::GroupedTails => {
+                    let g = i / 12;
+                    key_into(&mut buf[..c.len], g * c.stride, c.radix, &digits);
+                    buf[c.len] = b'a' + (i % 12) as u8;
+                    let h = mix(g);
+                    for t in 0..4 {
+                        buf[c.len + 1 + t] = b'a' + ((h >> (5 * t)) % 26) as u8;
+                    }
+                    c.len + 5
+                }
             };
             if c.set {
                 b.add(&buf[..klen]).map_err(|e| e.to_string())?;
@@ -243,6 +266,8 @@ pub fn run(ctx: &Ctx) -> i32 {
         ("set-one-key-offered-N-times-geom-100x2", 10, 10, true, Some((100, 2)), 1, Shape::OneKeyManyTimes, None),
         ("set-one-key-offered-N-times", 10, 10, true, None, 1, Shape::OneKeyManyTimes, None),
         ("prefix-chain-set-geom-7x2", 10, 10, true, Some((7, 2)), 1, Shape::PrefixChain, None),
+        ("grouped-tails-map", 10, 8, false, None, 1, Shape::GroupedTails, None),
+        ("grouped-tails-set-geom-100x2", 10, 8, true, Some((100, 2)), 1, Shape::GroupedTails, None),
         ("decimal-map-geom-1x1-on-1-byte-per-call-sink", 10, 10, false, Some((1, 1)), 1, Shape::Fixed, Some(1)),
     ];
     if !ctx.quick() {
@@ -269,7 +294,7 @@ pub fn run(ctx: &Ctx) -> i32 {
             fst::raw::verif::last_geometry()
         };
         let (rows, cols) = probe_geom.or(geom).unwrap_or((10_000, 2));
-        let k = bound(rows, cols, radix as usize + 1, len + 3);
+        let k = bound(rows, cols, (radix as usize + 1).max(13), len + 6);
         // the slope test is only sound once every cache cell has been used: small geometries saturate within 10^4 keys,
         // the default 20000-cell table keeps filling up to ~10^7 keys (there only the a-priori bound is judged)
         // bulk entry points run on the default table; their own growth is judged against the plain series of the same shape
